@@ -756,8 +756,226 @@ def run_subquery_null_witness(ctx):
     db.disconnect()
 
 
+# ---------------------------------------------------------------- string indexing / slicing by column expressions, every query form
+
+def run_string_index(ctx, n):
+    """`w.text[<int expression>]` and slices on real SQLite in projection, generator filter, Entity.select(lambda), .filter(lambda)
+    and truth-test position; rows where the index is exactly 0, -1, len-1, len, -len.  Python raises IndexError out of range
+    (SQL substr gives ''): those rows are compared only between forms, not with Python."""
+    rng = ctx.rng
+    db = Database()
+    class W(db.Entity):
+        id = PrimaryKey(int)
+        text = Required(str, autostrip=False)
+        pos = Required(int)
+        k = Required(int)
+    db.bind('sqlite', ':memory:'); db.generate_mapping(create_tables=True)
+    texts = ['a', 'ab', 'Ann', 'abcdef', 'xyz', 'hello', 'q']
+    rows = []
+    for i in range(ctx.scale(16, 40)):
+        t = rng.choice(texts)
+        rows.append({'id': i + 1, 'text': t, 'pos': rng.choice([0, 0, 1, -1, len(t) - 1, len(t), -len(t), 2, -2]), 'k': rng.choice([0, 1, 1, 2, len(t), -1])})
+    rows.append({'id': len(rows) + 1, 'text': 'abc', 'pos': 0, 'k': 3}); rows.append({'id': len(rows) + 1, 'text': 'xy', 'pos': 1, 'k': 1})
+    with db_session:
+        for r in rows: W(**r)
+    idx = [('w.pos', lambda r: r['pos']), ('w.pos - 1', lambda r: r['pos'] - 1), ('w.pos + 1', lambda r: r['pos'] + 1), ('w.k - w.pos', lambda r: r['k'] - r['pos']),
+           ('len(w.text) - w.k', lambda r: len(r['text']) - r['k']), ('w.pos - w.k', lambda r: r['pos'] - r['k']), ('w.k', lambda r: r['k']), ('0', lambda r: 0), ('pv', None)]
+    with db_session:
+        for _ in range(n):
+            pv = rng.choice([0, -1, 1, 2])
+            a = rng.choice(idx); b = rng.choice(idx)
+            fa = a[1] or (lambda r: pv); fb = b[1] or (lambda r: pv)
+            shape = rng.choice(['index', 'index', 'index', 'slice', 'start', 'stop'])
+            if shape == 'index': src = 'w.text[%s]' % a[0]; pyf = lambda r: r['text'][fa(r)]
+            elif shape == 'slice': src = 'w.text[%s:%s]' % (a[0], b[0]); pyf = lambda r: r['text'][fa(r):fb(r)]
+            elif shape == 'start': src = 'w.text[%s:]' % a[0]; pyf = lambda r: r['text'][fa(r):]
+            else: src = 'w.text[:%s]' % b[0]; pyf = lambda r: r['text'][:fb(r)]
+            if shape != 'index' and src.endswith(':-1]'): continue          # known: slice-stop-const-minus-one
+            if shape in ('slice', 'stop') and b[0] == 'pv' and pv == -1 and (shape == 'stop' or (a[0] in ('0', 'pv') and fa(rows[0]) == 0)): continue
+            vals = {}
+            for r in rows:
+                try: vals[r['id']] = pyf(r)
+                except IndexError: vals[r['id']] = IndexError
+            inrange = [i for i, v in vals.items() if v is not IndexError]
+            ch = rng.choice([v for v in vals.values() if v is not IndexError and v] or ['a'])
+            G = dict(W=W, select=select, pv=pv, ch=ch, len=len)
+            forms = [
+                ('projection', 'select((w.id, %s) for w in W)' % src, lambda: sorted((i, vals[i]) for i in inrange)),
+                ('filter', 'select(w.id for w in W if %s == ch)' % src, lambda: sorted(i for i in inrange if vals[i] == ch)),
+                ('lambda', 'W.select(lambda w: %s == ch)' % src, lambda: sorted(i for i in inrange if vals[i] == ch)),
+                ('filter-lambda', 'W.select().filter(lambda w: %s != ch)' % src, lambda: sorted(i for i in inrange if vals[i] != ch)),
+                ('truth-test', 'select(w.id for w in W if %s)' % src, lambda: sorted(i for i in inrange if vals[i])),
+                ('string', "select('w.id for w in W if not %s')" % src, lambda: sorted(i for i in inrange if not vals[i])),
+            ]
+            ctx.count('strindex:shape:' + shape)
+            for form, qsrc, ref in forms:
+                ctx.case(['strindex', form, src, pv, ch], kind='strindex:' + form)
+                try:
+                    res = list(eval(qsrc, G))
+                except Exception as ex:
+                    ctx.count('strindex:%s:raises:%s' % (form, type(ex).__name__)); continue
+                if form == 'projection': got = sorted((i, v) for i, v in res if i in inrange)
+                else: got = sorted((x.id if hasattr(x, 'id') else x) for x in res if (x.id if hasattr(x, 'id') else x) in inrange)
+                exp = ref()
+                if got != exp:
+                    bad = [x for x in got if x not in exp] + [x for x in exp if x not in got]
+                    rid = bad[0][0] if isinstance(bad[0], tuple) else bad[0]
+                    ctx.violation('a string index / slice by a column expression gives something else than Python (%s)' % form,
+                                  {'query': qsrc, 'pv': pv, 'ch': ch, 'row': rows[rid - 1], 'index value': (fa(rows[rid - 1]), fb(rows[rid - 1]))},
+                                  observed=[x for x in got if x not in exp][:3], expected=[x for x in exp if x not in got][:3],
+                                  key='string-index-expression:%s:%s' % (form, src))
+    db.disconnect()
+
+
+# ---------------------------------------------------------------- count() of composite-key entities through link rows; inheritance; tuples
+
+def run_relational(ctx, rounds):
+    rng = ctx.rng
+    for rd in range(rounds):
+        db = Database()
+        class Grp(db.Entity):
+            id = PrimaryKey(int)
+            pupils = Set('Pupil')
+        class Crs(db.Entity):
+            name = Required(str)
+            sem = Required(int)
+            PrimaryKey(name, sem)
+            pupils = Set('Pupil')
+            lessons = Set('Lsn')
+        class Pupil(db.Entity):
+            id = PrimaryKey(int)
+            a = Required(int)
+            b = Required(int)
+            grp = Required(Grp)
+            courses = Set(Crs)
+            tutor = Optional('Tutor')
+        class Tutor(db.Entity):
+            id = PrimaryKey(int)
+            pupils = Set(Pupil)
+        class Lsn(db.Entity):
+            id = PrimaryKey(int)
+            course = Required(Crs)
+            room = Required(int)
+        # inheritance
+        class Person(db.Entity):
+            _discriminator_ = 'P'
+            kind = core.Discriminator(str)
+            name = Required(str)
+            messages = Set('Msg')
+        class Stud(Person):
+            _discriminator_ = 'S'
+        class Grad(Stud):
+            _discriminator_ = 'G'
+        class Teach(Person):
+            _discriminator_ = 'T'
+        class Msg(db.Entity):
+            text = Required(str)
+            author = Required(Person)
+        db.bind('sqlite', ':memory:'); db.generate_mapping(create_tables=True)
+        with db_session:
+            grps = [Grp(id=i) for i in (1, 2, 3)]
+            crs = [Crs(name=n_, sem=s_) for n_, s_ in rng.sample([('a', 1), ('a', 2), ('b', 1), ('b', 2), ('c', 1)], rng.choice([2, 3, 5]))]
+            tutors = [Tutor(id=i) for i in (1, 2)]
+            for i in range(rng.choice([3, 5, 8])):
+                Pupil(id=i + 1, a=rng.choice([0, 1, 1, 2]), b=rng.choice([0, 3, 4, 5, 9]), grp=rng.choice(grps[:2]),
+                      courses=rng.sample(crs, rng.randint(1, len(crs))), tutor=rng.choice([None, None, tutors[0], tutors[1]]))
+            for i in range(rng.choice([3, 6, 9])):
+                Lsn(id=i + 1, course=rng.choice(crs[:2]), room=rng.choice([1, 1, 2]))
+            for i, cls in enumerate([Person, Stud, Grad, Teach, Stud, Person][:rng.choice([4, 6])]):
+                x = cls(name='n%d' % i); Msg(text='m%d' % i, author=x)
+        with db_session:
+            P_, G_, C_, L_, T_ = Pupil.select()[:], Grp.select()[:], Crs.select()[:], Lsn.select()[:], Tutor.select()[:]
+            people, msgs = Person.select()[:], Msg.select()[:]
+            x1 = rng.choice([0, 1, 2]); y1 = rng.choice([0, 3, 4, 5])
+            ns = dict(Grp=Grp, Crs=Crs, Pupil=Pupil, Lsn=Lsn, Tutor=Tutor, Person=Person, Stud=Stud, Grad=Grad, Teach=Teach, Msg=Msg,
+                      select=select, count=count, exists=exists, x1=x1, y1=y1)
+            rooms = {}
+            for l in L_: rooms.setdefault(l.room, set()).add(l.course)
+            Q_ = [
+                # count() of an entity with a composite key reached through several link rows of one group
+                ('count-composite-through-m2m', "select((g.id, count(c)) for g in Grp for p in g.pupils for c in p.courses)",
+                 lambda: [(g.id, len({c for p in g.pupils for c in p.courses})) for g in G_ if any(p.courses for p in g.pupils)]),
+                ('count-composite-through-fk', "select((l.room, count(l.course)) for l in Lsn)", lambda: [(room, len(cs)) for room, cs in rooms.items()]),
+                ('count-composite-per-pupil', "select((p.id, count(c)) for p in Pupil for c in p.courses)", lambda: [(p.id, len(p.courses)) for p in P_ if p.courses]),
+                ('count-composite-collection', "select((g.id, count(g.pupils.courses)) for g in Grp)", lambda: [(g.id, len({c for p in g.pupils for c in p.courses})) for g in G_]),
+                ('count-pupils-of-course', "select((c.name, c.sem, count(c.pupils)) for c in Crs)", lambda: [(c.name, c.sem, len(c.pupils)) for c in C_]),
+                # tuple comparisons
+                ('tuple-le', "select(p.id for p in Pupil if (p.a, p.b) <= (x1, y1))", lambda: [p.id for p in P_ if (p.a, p.b) <= (x1, y1)]),
+                ('tuple-ge', "select(p.id for p in Pupil if (p.a, p.b) >= (x1, y1))", lambda: [p.id for p in P_ if (p.a, p.b) >= (x1, y1)]),
+                ('tuple-lt', "select(p.id for p in Pupil if (p.a, p.b) < (x1, y1))", lambda: [p.id for p in P_ if (p.a, p.b) < (x1, y1)]),
+                ('tuple-gt', "select(p.id for p in Pupil if (p.a, p.b, p.id) > (x1, y1, 2))", lambda: [p.id for p in P_ if (p.a, p.b, p.id) > (x1, y1, 2)]),
+                ('tuple-eq', "select(p.id for p in Pupil if (p.a, p.b) == (x1, y1))", lambda: [p.id for p in P_ if (p.a, p.b) == (x1, y1)]),
+                ('tuple-ne', "select(p.id for p in Pupil if (p.a, p.b) != (x1, y1))", lambda: [p.id for p in P_ if (p.a, p.b) != (x1, y1)]),
+                # membership in a collection of optional references
+                ('not-in-collection-optional-ref', "select((g.id, t.id) for g in Grp for t in Tutor if t not in g.pupils.tutor)",
+                 lambda: [(g.id, t.id) for g in G_ for t in T_ if t not in [p.tutor for p in g.pupils]]),
+                ('in-collection-optional-ref', "select((g.id, t.id) for g in Grp for t in Tutor if t in g.pupils.tutor)",
+                 lambda: [(g.id, t.id) for g in G_ for t in T_ if t in [p.tutor for p in g.pupils]]),
+                # inheritance: a subclass queried with Entity.select / exists(lambda) nested in another query
+                ('subclass-exists-lambda', "select(m.text for m in Msg if Stud.exists(lambda s: s == m.author))", lambda: [m.text for m in msgs if isinstance(m.author, Stud)]),
+                ('subclass-exists-lambda-pk', "select(m.text for m in Msg if Stud.exists(lambda s: s.id == m.author.id))", lambda: [m.text for m in msgs if isinstance(m.author, Stud)]),
+                ('subclass-exists-generator', "select(m.text for m in Msg if exists(s for s in Stud if s == m.author))", lambda: [m.text for m in msgs if isinstance(m.author, Stud)]),
+                ('in-subclass-select-lambda', "select(x.name for x in Person if x in Stud.select(lambda s: True))", lambda: [x.name for x in people if isinstance(x, Stud)]),
+                ('in-subsubclass-select-lambda', "select(x.name for x in Person if x in Grad.select(lambda s: s.id > 0))", lambda: [x.name for x in people if isinstance(x, Grad)]),
+                ('subclass-select', "select(s.name for s in Teach)", lambda: [x.name for x in people if isinstance(x, Teach)]),
+                ('author-of-subclass', "select(m.text for m in Msg if m.author in select(t for t in Teach))", lambda: [m.text for m in msgs if isinstance(m.author, Teach)]),
+            ]
+            for tid, qsrc, ref in Q_:
+                ctx.case(['relational', tid, rd, x1, y1], kind='relational:' + tid)
+                try: got = sorted(canon2(list(eval(qsrc, ns))), key=repr)
+                except Exception as ex:
+                    ctx.count('relational:%s:raises:%s' % (tid, type(ex).__name__)); continue
+                exp = sorted(canon2(list(set(ref()))), key=repr)
+                if got != exp:
+                    ctx.violation('query returns something else than the Python evaluation (%s)' % tid,
+                                  {'query': qsrc, 'x1': x1, 'y1': y1, 'pupils (id, a, b, grp, courses, tutor)': [(p.id, p.a, p.b, p.grp.id, sorted(c.get_pk() for c in p.courses), p.tutor and p.tutor.id) for p in P_][:8],
+                                   'lessons (room, course)': [(l.room, l.course.get_pk()) for l in L_][:9], 'people': [(x.name, type(x).__name__) for x in people]},
+                                  observed=[g for g in got if g not in exp][:4] or {'rows': len(got)}, expected=[x for x in exp if x not in got][:4] or {'rows': len(exp)},
+                                  key=KNOWN_RELATIONAL_KEYS.get(tid, 'relational:' + tid))
+        db.disconnect()
+
+
+KNOWN_RELATIONAL_KEYS = {'tuple-le': 'tuple-comparison-le-ge-first-component-not-strict', 'tuple-ge': 'tuple-comparison-le-ge-first-component-not-strict',
+                         'not-in-collection-optional-ref': 'not-in-collection-of-optional-references-with-null'}
+
+
+def run_tuple_and_refset_witnesses(ctx):
+    """fixed data for the two defects found by the relational stream"""
+    db = Database()
+    class WG(db.Entity):
+        members = Set('WS')
+    class WT(db.Entity):
+        mentees = Set('WS')
+    class WS(db.Entity):
+        a = Required(int); b = Required(int)
+        group = Required(WG)
+        tutor = Optional(WT)
+    db.bind('sqlite', ':memory:'); db.generate_mapping(create_tables=True)
+    with db_session:
+        g = WG(); g2 = WG(); t1 = WT(); t2 = WT()
+        WS(a=1, b=5, group=g, tutor=t1); WS(a=1, b=3, group=g); WS(a=0, b=9, group=g2, tutor=t1); WS(a=2, b=0, group=g2, tutor=t1)
+    with db_session:
+        ns = dict(WG=WG, WT=WT, WS=WS, select=select)
+        S_ = WS.select()[:]
+        for key, q, exp in [
+            ('tuple-comparison-le-ge-first-component-not-strict', 'select(s.id for s in WS if (s.a, s.b) <= (1, 3))', [s.id for s in S_ if (s.a, s.b) <= (1, 3)]),
+            ('tuple-comparison-le-ge-first-component-not-strict', 'select(s.id for s in WS if (s.a, s.b) >= (1, 4))', [s.id for s in S_ if (s.a, s.b) >= (1, 4)]),
+            ('not-in-collection-of-optional-references-with-null', 'select((g.id, t.id) for g in WG for t in WT if t not in g.members.tutor)',
+             [(g_.id, t_.id) for g_ in WG.select() for t_ in WT.select() if t_ not in [s.tutor for s in g_.members]])]:
+            ctx.case(['witness', key, q], kind='witness')
+            got = sorted(eval(q, ns)[:])
+            if got != sorted(exp):
+                ctx.violation('query returns something else than the Python evaluation', {'query': q, 'rows (a, b, group, tutor)': [(s.a, s.b, s.group.id, s.tutor and s.tutor.id) for s in S_]},
+                              observed=got, expected=sorted(exp), key=key)
+            else: ctx.count('witness-no-longer-fails:' + key)
+    db.disconnect()
+
+
 def run(ctx):
     run_witnesses(ctx)
+    run_tuple_and_refset_witnesses(ctx)
+    run_string_index(ctx, ctx.scale(25, 300))
+    run_relational(ctx, ctx.scale(4, 40))
     run_subquery_null_witness(ctx)
     run_distinct(ctx, ctx.scale(3, 30))
     run_arith_witnesses(ctx)
